@@ -1,9 +1,10 @@
 """C30 sessions: published diagnostics converge to the current content (real server, push diagnostics)."""
 import os, sys, json, time, random, shutil, re, itertools
+from urllib.parse import unquote
 
 sys.path.insert(0, os.path.dirname(os.path.abspath(__file__)))
 from sched_lsp import Server, make_workspace, path_uri, run_driver  # noqa: E402
-from sched_sessions import text_of, disk_text, notif_msg  # noqa: E402
+from sched_sessions import text_of, disk_text, notif_msg, spell_uri, special_name, SPELLINGS  # noqa: E402
 
 INTERVAL_MS = 60
 
@@ -47,7 +48,8 @@ def c30_session(rep, seed, sched_seed, rounds, distinct):
     rng = random.Random(seed * 2000003 + (sched_seed or 0))
     NDISK, NURIS = 1, 3
     NW = 3   # extra on-disk, never-opened-before files per round for the watched-files batches
-    files = {f"r{r}_f{i}.lua": disk_text(i) for r in range(rounds) for i in range(NDISK)}
+    fname = lambda r, i: f"r{r}_{special_name(r, i)}_f{i}.lua"
+    files = {fname(r, i): disk_text(i) for r in range(rounds) for i in range(NDISK)}
     files.update({f"r{r}_w{j}.lua": disk_text(10 + j) for r in range(rounds) for j in range(NW)})
     ws = make_workspace(files, emmyrc={"diagnostics": {"diagnosticInterval": INTERVAL_MS}})
     srv = Server(ws, sched_seed=sched_seed, sched_max_ms=3)
@@ -59,7 +61,7 @@ def c30_session(rep, seed, sched_seed, rounds, distinct):
             return
         srv.settle(0.5, 10.0)
         for r in range(rounds):
-            uris = [path_uri(os.path.join(ws, f"r{r}_f{i}.lua")) for i in range(NURIS)]
+            uris = [spell_uri(os.path.join(ws, fname(r, i)), SPELLINGS[(r + i) % 3]) for i in range(NURIS)]
             start_seq = srv.seq
             evs = []
             n = rng.randrange(3, 10)
@@ -129,10 +131,12 @@ def c30_session(rep, seed, sched_seed, rounds, distinct):
             distinct.add(shape)
             rep.count("events_%d" % len(evs))
             pubs = {u: [] for u in range(NURIS)}
+            keys = [unquote(u) for u in uris]
             with srv.cv:
                 for seq, uri, ds in srv.diags:
-                    if seq > start_seq and uri in uris:
-                        pubs[uris.index(uri)].append(ds)
+                    # the server publishes under its own spelling of the uri: compare decoded
+                    if seq > start_seq and unquote(uri or "") in keys:
+                        pubs[keys.index(unquote(uri))].append(ds)
             # model side: the abstract event list must be predicted to converge
             enc = []
             for e in evs:
